@@ -94,6 +94,7 @@ def check_C16(tier, seed):
     run_pipeline(res, binary, "vec", vec_path=vec, validate=False)
     n = 20000 if tier == "quick" else 300000
     run_pipeline(res, binary, "random", gen_lines=gens.gen_nanos(rng, n), nshards=8 if tier == "quick" else 16)
+    run_pipeline(res, binary, "ns-validation", gen_lines=gens.gen_ns_validation(rng, 2000 if tier == "quick" else 40000), nshards=4)
     res.notes["rule"] = "vectors: every count within R of 17 anchors (multiples of 1e9, i64/i128 ends, date-time range ends); events: seeded i128 counts (log-uniform, anchors, zero crossings) through the three from_total_nanoseconds constructors"
     os.remove(vec)
     return res.finish()
